@@ -12,6 +12,7 @@ From Crusta Require Import Spec.AF Spec.SemFacts Spec.Theory Spec.Invariance.
 From Crusta Require Import Sat.Cnf Sat.Prog Model.Encoders Model.Graph Model.Solvers.
 From Crusta Require Import Proofs.EncSpec Proofs.SolverBasics Proofs.TopBase Proofs.TopMax Proofs.SolverTop Proofs.Corollaries.
 From Crusta Require Proofs.SolverWholeEx.
+From Crusta Require Proofs.Clauses.
 Import ListNotations.
 
 (* reordering / repeating attack declarations, reordering arguments *)
@@ -196,6 +197,75 @@ Proof.
   repeat split; vm_compute; reflexivity.
 Qed.
 
+(* ---- "The answers for different semantics on one framework are mutually consistent", at the level
+   of the SOLVER MODEL: completed runs of run_query on views of the same framework F, whatever the
+   oracles, thresholds, encoders, fuels, flags and start states (Proofs/Clauses.v) ---- *)
+
+(* "GR within ID within every PR extension": the three single-extension answers *)
+Theorem C11_solver_gr_in_id_in_pr : forall g F, view_good g F ->
+  forall o1 o2 o3 thr1 thr2 thr3, valid_oracle o1 -> valid_oracle o2 -> valid_oracle o3 ->
+  1 <= thr1 -> 1 <= thr2 -> 1 <= thr3 ->
+  forall e1 e2 e3 al1 al2 al3 fuel1 fuel2 fuel3 cert1 cert2 cert3 st1 st2 st3 r1 r2 r3 t1 t2 t3,
+  enc_ok ID e2 -> enc_ok PR e3 ->
+  run_query o1 thr1 fuel1 GR QSE cert1 e1 g al1 st1 = Done (OExt r1) t1 ->
+  run_query o2 thr2 fuel2 ID QSE cert2 e2 g al2 st2 = Done (OExt r2) t2 ->
+  run_query o3 thr3 fuel3 PR QSE cert3 e3 g al3 st3 = Done (OExt r3) t3 ->
+  exists G I P, r1 = Some G /\ r2 = Some I /\ r3 = Some P /\ incl G I /\ incl I P.
+Proof. exact Clauses.se_gr_in_id_in_pr. Qed.
+
+(* "DC-CO equals DC-PR": there is no DC-PR solver; the library answers DC-PR by the complete solver,
+   and the status of that one run is credulous acceptance under CO and under PR alike *)
+Theorem C11_solver_dc_co_is_dc_pr : forall g F, view_good g F ->
+  forall oracle thr, valid_oracle oracle -> 1 <= thr ->
+  forall e al fuel cert st0 b c t, enc_ok CO e -> al_ok CO QDC F al ->
+  run_query oracle thr fuel CO QDC cert e g al st0 = Done (OAcc b c) t ->
+  (b = true <-> cred CO F al) /\ (b = true <-> cred PR F al).
+Proof. exact Clauses.dc_co_is_dc_pr. Qed.
+
+(* "skeptical acceptance implies credulous acceptance when an extension exists": a skeptical YES and
+   a completed credulous run of the same solver type on the same arguments *)
+Theorem C11_solver_skeptical_yes_implies_credulous_yes : forall g F, view_good g F ->
+  forall o1 o2 thr1 thr2, valid_oracle o1 -> valid_oracle o2 -> 1 <= thr1 -> 1 <= thr2 ->
+  forall s e1 e2 al fuel1 fuel2 cert1 cert2 st1 st2 c1 t1 b2 c2 t2,
+  supported s QDS -> supported s QDC -> enc_ok s e1 -> enc_ok s e2 -> al_ok s QDS F al ->
+  (exists S, ext s F S) ->
+  run_query o1 thr1 fuel1 s QDS cert1 e1 g al st1 = Done (OAcc true c1) t1 ->
+  run_query o2 thr2 fuel2 s QDC cert2 e2 g al st2 = Done (OAcc b2 c2) t2 ->
+  b2 = true.
+Proof. exact Clauses.ds_yes_implies_dc_yes. Qed.
+
+(* the same for PR (a preferred extension always exists), whose credulous question goes to the
+   complete solver *)
+Theorem C11_solver_skeptical_pr_yes_implies_credulous_yes : forall g F, view_good g F ->
+  forall o1 o2 thr1 thr2, valid_oracle o1 -> valid_oracle o2 -> 1 <= thr1 -> 1 <= thr2 ->
+  forall e1 e2 al fuel1 fuel2 cert1 cert2 st1 st2 c1 t1 b2 c2 t2,
+  enc_ok PR e1 -> enc_ok CO e2 -> al_ok PR QDS F al ->
+  run_query o1 thr1 fuel1 PR QDS cert1 e1 g al st1 = Done (OAcc true c1) t1 ->
+  run_query o2 thr2 fuel2 CO QDC cert2 e2 g al st2 = Done (OAcc b2 c2) t2 ->
+  b2 = true.
+Proof. exact Clauses.ds_pr_yes_implies_dc_yes. Qed.
+
+(* "ST, SST and STG coincide whenever a stable extension exists": the statuses of the same
+   acceptance query under any two of the three solver types ... *)
+Theorem C11_solver_stable_family_statuses : forall g F, view_good g F ->
+  forall o1 o2 thr1 thr2, valid_oracle o1 -> valid_oracle o2 -> 1 <= thr1 -> 1 <= thr2 ->
+  forall s1 s2 q e1 e2 al fuel1 fuel2 cert1 cert2 st1 st2 b1 c1 t1 b2 c2 t2,
+  s1 = ST \/ s1 = SST \/ s1 = STG -> s2 = ST \/ s2 = SST \/ s2 = STG ->
+  q <> QSE -> enc_ok s1 e1 -> enc_ok s2 e2 -> incl al (args F) ->
+  (exists T, st F T) ->
+  run_query o1 thr1 fuel1 s1 q cert1 e1 g al st1 = Done (OAcc b1 c1) t1 ->
+  run_query o2 thr2 fuel2 s2 q cert2 e2 g al st2 = Done (OAcc b2 c2) t2 ->
+  b1 = b2.
+Proof. exact Clauses.stable_family_statuses_coincide. Qed.
+
+(* ... and the single-extension answers of the SST / STG solvers are then stable extensions *)
+Theorem C11_solver_stable_family_extension : forall g F, view_good g F ->
+  forall oracle thr, valid_oracle oracle -> 1 <= thr ->
+  forall s e al fuel cert st0 r t, s = SST \/ s = STG -> enc_ok s e -> (exists T, st F T) ->
+  run_query oracle thr fuel s QSE cert e g al st0 = Done (OExt r) t ->
+  exists L, r = Some L /\ st F L.
+Proof. exact Clauses.stable_family_se. Qed.
+
 Print Assumptions C11_presentation_ext.
 Print Assumptions C11_presentation_cred.
 Print Assumptions C11_presentation_skep.
@@ -215,3 +285,9 @@ Print Assumptions C11_solver_presentation_invariant.
 Print Assumptions C11_solver_renaming_invariant.
 Print Assumptions C11_solver_locality.
 Print Assumptions C11_solver_locality_stable_corner.
+Print Assumptions C11_solver_gr_in_id_in_pr.
+Print Assumptions C11_solver_dc_co_is_dc_pr.
+Print Assumptions C11_solver_skeptical_yes_implies_credulous_yes.
+Print Assumptions C11_solver_skeptical_pr_yes_implies_credulous_yes.
+Print Assumptions C11_solver_stable_family_statuses.
+Print Assumptions C11_solver_stable_family_extension.
